@@ -110,6 +110,8 @@ pub fn record(args: &[String], seed: u64, tr: &mut Tr) -> Value {
     let al = Alphabet { pp: false, ..Alphabet::unitary() };
     let tf = format!("{dir}/hook.ndjson");
     let (mut nq, mut nbad) = (0usize, 0usize);
+    let variants = crate::util::arg_flag(args, "--variants");
+    let mut nvar = 0usize;
     // fixed circuits that make marginals non-trivial, then random ones
     let mut circuits: Vec<(usize, Vec<AG>)> = vec![
         (2, vec![AG { t: "HAD", qs: vec![0], ph: 0 }, AG { t: "CNOT", qs: vec![0, 1], ph: 0 }]),
@@ -259,7 +261,236 @@ pub fn record(args: &[String], seed: u64, tr: &mut Tr) -> Value {
             tr.emit(json!({"k": "query", "kind": kind, "chars": if b.len() == 2 { chars(&b[1]) } else { vec![] }, "argv": b, "exit": out.exit, "panicked": out.panicked}));
             nbad += 1;
         }
+        if variants {
+            nvar += record_variants(&bin, &path, &dir, &tf, *n, shots, &mut r, tr);
+        }
         let _ = std::fs::remove_file(&path);
     }
-    json!({"circuits": ncirc.min(circuits.len()), "queries": nq, "malformed": nbad})
+    let nfile = if variants { record_file_errors(&bin, &dir, &tf, tr) } else { 0 };
+    json!({"circuits": ncirc.min(circuits.len()), "queries": nq, "malformed": nbad, "variants": nvar, "file_errors": nfile})
+}
+
+// ---------------------------------------------------------------------------------------------
+// API-coverage additions (docs/api_audit.md #13): the command-line surface the runs above never use.
+//   no task flag (default SimTask{shots: 1}), -s 0, the long flags --shots / --amplitude / --expval / --parallel,
+//   -p N for N in {0,1,3,4}, -o / --out (the answer is read back from the file), unreadable / malformed /
+//   unsupported input files.  Every run goes through the built binary with QUIZX_VERIF_TRACE exactly like the
+//   runs above and produces the same amp / exp / sample / query events (Born-rule predicates of Trace_Sim.tla).
+// ---------------------------------------------------------------------------------------------
+
+/// where the answer of a run is: stdout, or the file given to -o / --out
+fn answer_text(out: &Run, out_file: &Option<String>) -> Option<String> {
+    match out_file {
+        None => Some(out.stdout.clone()),
+        Some(f) => {
+            let t = std::fs::read_to_string(f).ok();
+            let _ = std::fs::remove_file(f);
+            t
+        }
+    }
+}
+
+fn scalar_event(kind: &str, chars_: &str, variant: &str, argv: &[String], out: &Run, out_file: &Option<String>) -> Value {
+    let mut e = json!({"k": kind, "chars": chars(chars_), "method": [], "par": argv.iter().any(|a| a == "-p" || a == "--parallel"), "exit": out.exit,
+                       "panicked": out.panicked, "variant": variant, "argv": argv[2..], "out": out_file.is_some()});
+    let text = answer_text(out, out_file);
+    if out.exit == 0 && out.hooks.len() == 1 && text.is_some() {
+        let (js, cval, ap) = raw_scalar(&out.hooks[0]["raw"]);
+        let printed: f64 = text.unwrap().trim().parse().unwrap_or(f64::NAN);
+        e["scalar"] = js;
+        e["approx"] = json!(ap);
+        let want = if kind == "amp" { cval.norm_sqr() } else { cval.re };
+        e["printed_ok"] = json!((printed - want).abs() <= 1e-9);
+        e["res"] = json!("ok");
+        if out_file.is_some() {
+            e["stdout_empty"] = json!(out.stdout.trim().is_empty());
+        }
+    } else {
+        e["res"] = json!(if out.exit != 0 { "error" } else if text.is_none() { "nofile" } else { "nohook" });
+    }
+    e
+}
+
+fn sample_event(variant: &str, argv: &[String], shots: usize, n: usize, out: &Run, out_file: &Option<String>) -> Value {
+    let mut e = json!({"k": "sample", "method": [], "par": argv.iter().any(|a| a == "-p" || a == "--parallel"), "exit": out.exit, "panicked": out.panicked,
+                       "shots": shots, "variant": variant, "argv": argv[2..], "out": out_file.is_some()});
+    let text = answer_text(out, out_file);
+    let lines: Vec<String> = text.clone().unwrap_or_default().lines().filter(|l| !l.trim().is_empty()).map(|l| l.to_string()).collect();
+    if out.exit == 0 && text.is_some() && out.hooks.len() == 2 * shots * n && lines.len() == shots {
+        let mut sh = vec![];
+        for s in 0..shots {
+            let mut draws = vec![];
+            let mut prefix_prob = 1.0f64;
+            for k in 0..n {
+                let hs = &out.hooks[2 * (s * n + k)];
+                let hd = &out.hooks[2 * (s * n + k) + 1];
+                let (js, cval, ap) = raw_scalar(&hs["raw"]);
+                let bits: Vec<u8> = hd["bits"].as_str().unwrap().bytes().map(|b| b - b'0').collect();
+                let p: f64 = hd["p"].as_str().unwrap().parse().unwrap_or(f64::NAN);
+                let joint = cval.re;
+                let cond = joint / prefix_prob;
+                let bit = *bits.last().unwrap();
+                draws.push(json!({"pre": bits[..bits.len() - 1], "scalar": js, "approx": ap, "bit": bit,
+                                  "p_in_range": (0.0..=1.0).contains(&p), "p_is_conditional": (p - cond).abs() <= 1e-9}));
+                prefix_prob = if bit == 1 { joint } else { prefix_prob - joint };
+            }
+            let printed: Vec<u8> = lines[s].trim().bytes().map(|b| b.wrapping_sub(b'0')).collect();
+            sh.push(json!({"draws": draws, "printed": printed}));
+        }
+        e["res"] = json!("ok");
+        e["runs"] = json!(sh);
+    } else {
+        e["res"] = json!(if out.exit != 0 { "error" } else if text.is_none() { "nofile" } else { "nohook" });
+    }
+    e
+}
+
+#[allow(clippy::too_many_arguments)]
+fn record_variants(bin: &str, path: &str, dir: &str, tf: &str, n: usize, shots: usize, r: &mut rand::rngs::StdRng, tr: &mut Tr) -> usize {
+    let mut cnt = 0;
+    let pick = |r: &mut rand::rngs::StdRng, xs: &[&str]| -> String { xs[r.random_range(0..xs.len())].to_string() };
+    // method / parallel spellings; -p takes a depth that the code ignores: every value must give the same answers
+    let method = |r: &mut rand::rngs::StdRng| -> Vec<String> { [vec![], vec!["--cats".to_string()], vec!["--bss".to_string()]][r.random_range(0..3)].clone() };
+    let par = |r: &mut rand::rngs::StdRng| -> Vec<String> {
+        if r.random_bool(0.25) {
+            vec![]
+        } else {
+            vec![["-p", "--parallel"][r.random_range(0..2)].to_string(), ["0", "1", "3", "4"][r.random_range(0..4)].to_string()]
+        }
+    };
+    let outf = |r: &mut rand::rngs::StdRng, tag: &str| -> (Vec<String>, Option<String>) {
+        let f = format!("{dir}/out_{tag}.txt");
+        let _ = std::fs::remove_file(&f);
+        (vec![["-o", "--out"][r.random_range(0..2)].to_string(), f.clone()], Some(f))
+    };
+    let bit_string = |r: &mut rand::rngs::StdRng| -> String { (0..n).map(|_| if r.random_bool(0.5) { '1' } else { '0' }).collect() };
+    let pauli_string = |r: &mut rand::rngs::StdRng| -> String { (0..n).map(|_| ['I', 'X', 'Y', 'Z', 'x', 'z'][r.random_range(0..6)]).collect() };
+    let base = |extra: Vec<Vec<String>>| -> Vec<String> {
+        let mut a: Vec<String> = vec!["sim".into(), path.to_string()];
+        for x in extra {
+            a.extend(x);
+        }
+        a
+    };
+    // (1) no task flag at all: one shot
+    for rep in 0..2 {
+        let (o, of) = if rep == 1 { outf(r, "d") } else { (vec![], None) };
+        let a = base(vec![method(r), par(r), o]);
+        let out = run(bin, &a, tf);
+        tr.emit(sample_event("default_task", &a, 1, n, &out, &of));
+        cnt += 1;
+    }
+    // (2) zero shots
+    let a = base(vec![vec![pick(r, &["-s", "--shots"]), "0".into()], method(r), par(r)]);
+    let out = run(bin, &a, tf);
+    tr.emit(sample_event("zero_shots", &a, 0, n, &out, &None));
+    cnt += 1;
+    // (3) --shots with the parallel values, once into a file
+    for rep in 0..2 {
+        let k = 1 + r.random_range(0..shots.max(1));
+        let (o, of) = if rep == 1 { outf(r, "s") } else { (vec![], None) };
+        let a = base(vec![o, vec![pick(r, &["--shots", "-s"]), k.to_string()], par(r), method(r)]);
+        let out = run(bin, &a, tf);
+        tr.emit(sample_event("shots", &a, k, n, &out, &of));
+        cnt += 1;
+    }
+    // (4) --amplitude / -a with the parallel values, once into a file
+    for rep in 0..3 {
+        let bs = if rep == 2 { pick(r, &["0", "1"]) } else { bit_string(r) };
+        let (o, of) = if rep == 1 { outf(r, "a") } else { (vec![], None) };
+        let a = base(vec![par(r), vec![pick(r, &["--amplitude", "-a"]), bs.clone()], o, method(r)]);
+        let out = run(bin, &a, tf);
+        tr.emit(scalar_event("amp", &bs, "amplitude", &a, &out, &of));
+        cnt += 1;
+    }
+    // (5) --expval / -e
+    for rep in 0..3 {
+        let ps = if rep == 2 { pick(r, &["X", "y", "Z"]) } else { pauli_string(r) };
+        let (o, of) = if rep == 1 { outf(r, "e") } else { (vec![], None) };
+        let a = base(vec![method(r), vec![pick(r, &["--expval", "-e"]), ps.clone()], par(r), o]);
+        let out = run(bin, &a, tf);
+        tr.emit(scalar_event("exp", &ps, "expval", &a, &out, &of));
+        cnt += 1;
+    }
+    // (6) malformed flag values: not a number, -o without a value, an output path that cannot be written
+    let bads: Vec<Vec<String>> = vec![
+        vec!["-p".into(), "x".into(), "-a".into(), "0".into()],
+        vec!["-s".into(), "-1".into()],
+        vec!["--shots".into(), "two".into()],
+        vec!["-a".into(), "0".into(), "-o".into()],
+        vec!["-a".into(), "0".into(), "-o".into(), format!("{dir}/no_such_dir/out.txt")],
+    ];
+    let b = &bads[r.random_range(0..bads.len())];
+    let a = base(vec![b.clone()]);
+    let out = run(bin, &a, tf);
+    tr.emit(json!({"k": "query", "kind": "flags", "chars": [], "argv": b, "exit": out.exit, "panicked": out.panicked, "variant": "bad_flag_value"}));
+    cnt + 1
+}
+
+/// input files the command must refuse (error exit, no panic)
+fn record_file_errors(bin: &str, dir: &str, tf: &str, tr: &mut Tr) -> usize {
+    let hdr = "OPENQASM 2.0;\ninclude \"qelib1.inc\";\nqreg q[2];\n";
+    // definitely malformed: must be rejected
+    let malformed: Vec<(&str, Option<String>)> = vec![
+        ("nonexistent", None),
+        ("directory", None),
+        ("empty", Some(String::new())),
+        ("garbage", Some("this is not qasm\n".into())),
+        ("binary", None),
+        ("missing_semicolon", Some(format!("{hdr}h q[0]\ncx q[0],q[1];\n"))),
+        ("undefined_gate", Some(format!("{hdr}foo q[0];\n"))),
+        ("index_out_of_range", Some(format!("{hdr}h q[5];\n"))),
+        ("wrong_arity", Some(format!("{hdr}h q[0], q[1];\n"))),
+        ("undeclared_register", Some(format!("{hdr}h r[0];\n"))),
+    ];
+    // legal OpenQASM that quizx does not support: whatever the exit status, no panic
+    let unsupported: Vec<(&str, String)> = vec![
+        ("u3", format!("{hdr}u3(0.1,0.2,0.3) q[0];\n")),
+        ("cy", format!("{hdr}cy q[0],q[1];\n")),
+        ("reset", format!("{hdr}reset q[0];\n")),
+        ("barrier", format!("{hdr}h q[0];\nbarrier q;\n")),
+        ("conditional", format!("{hdr}creg c[2];\nif(c==1) x q[0];\n")),
+        ("opaque", format!("{hdr}opaque mygate a;\nmygate q[0];\n")),
+    ];
+    // a measurement makes the circuit non-unitary: outside the property's quantifier, recorded only
+    let outside: Vec<(&str, String)> = vec![("measure", format!("{hdr}creg c[2];\nh q[0];\nmeasure q[0] -> c[0];\n"))];
+    tr.group();
+    tr.emit(json!({"k": "circ", "c": {"n": 2, "gates": []}}));
+    let tasks: Vec<Vec<String>> = vec![vec![], vec!["-a".into(), "0".into()], vec!["-e".into(), "Z".into()], vec!["-s".into(), "2".into()]];
+    let mut cnt = 0;
+    for (name, content) in &malformed {
+        let path = format!("{dir}/bad_{name}.qasm");
+        let _ = std::fs::remove_file(&path);
+        let _ = std::fs::remove_dir(&path);
+        match (*name, content) {
+            ("directory", _) => std::fs::create_dir_all(&path).unwrap(),
+            ("binary", _) => std::fs::write(&path, [0u8, 159, 146, 150, 255, 254, 0, 1, 2, 200]).unwrap(),
+            (_, Some(c)) => std::fs::write(&path, c).unwrap(),
+            _ => {}
+        }
+        for t in &tasks {
+            let mut a: Vec<String> = vec!["sim".into(), path.clone()];
+            a.extend(t.clone());
+            let out = run(bin, &a, tf);
+            tr.emit(json!({"k": "query", "kind": "file_malformed", "what": name, "chars": [], "argv": t, "exit": out.exit, "panicked": out.panicked}));
+            cnt += 1;
+        }
+        let _ = std::fs::remove_file(&path);
+        let _ = std::fs::remove_dir(&path);
+    }
+    for (kind, list) in [("file_unsupported", &unsupported), ("file_outside", &outside)] {
+        for (name, content) in list {
+            let path = format!("{dir}/bad_{name}.qasm");
+            std::fs::write(&path, content).unwrap();
+            for t in &tasks {
+                let mut a: Vec<String> = vec!["sim".into(), path.clone()];
+                a.extend(t.clone());
+                let out = run(bin, &a, tf);
+                tr.emit(json!({"k": "query", "kind": kind, "what": name, "chars": [], "argv": t, "exit": out.exit, "panicked": out.panicked}));
+                cnt += 1;
+            }
+            let _ = std::fs::remove_file(&path);
+        }
+    }
+    cnt
 }
